@@ -227,6 +227,32 @@ def check_on(t, p, R, nested=False):
     R.check(build.snapshot(t) == snap, "input-modified", lambda: f"p={p}")
 
 
+def check_derived(case, R):
+    """Measure, derive, measure: every decomposition query is asked of a tree, a new tree is DERIVED from it by a library operation
+    (copy, sort, sub tree, re-rooting, concatenation, geometric transform, file round trip ...), and the derived tree must answer
+    every query for its own table - not for the tree it came from."""
+    p, which = list(case[0]), case[1]
+    R.state(p, which)
+    t = build.make_tree(p)
+    _warm(t)
+    ok, d = R.impl(f"derive:{which}", build.derive, t, which)
+    if not ok:
+        return
+    if d is None:
+        R.trivial()
+        return
+    wf, why = build.wellformed(d)
+    if not wf:
+        R.note("derived-tree-not-wellformed")  # C03's business, not judged here
+        return
+    pd_ = [int(v) for v in d.pid().tolist()]
+    before = R.n_viol
+    check_on(d, pd_, R)
+    if R.n_viol > before:
+        R.note(f"violations on trees derived by {which}")
+    check_on(t, p, R)  # and the original still answers for itself
+
+
 def check_file(case, R):
     """Decomposition invariants on a real reconstruction (reference computed on its parent table)."""
     from swcgeom.core import Tree
@@ -304,7 +330,10 @@ def spaces(tier, seed):
                     for ty in type_patterns(p):
                         yield ("TY", p, None, tuple(ty))
 
-    out = [Space.of("typed-trees", gen_types, check_tree,
+    dv_hi = 5 if tier == "quick" else 6
+    out = [Space.of("derived-trees", lambda: ((p, w) for n in range(1, dv_hi + 1) for p in S.labelled_trees(n) for w in build.DERIVATIONS), check_derived,
+                    bounds={"LT_max_nodes": dv_hi, "derivations": list(build.DERIVATIONS), "note": "all queries asked of the source tree first"}),
+           Space.of("typed-trees", gen_types, check_tree,
                     bounds={"all_type_vectors_over_{1,2,3}_up_to_nodes": ty_full, "patterns_up_to_nodes": ty_hi,
                             "patterns": ["all 1", "all 0", "all 3", "root and tips 1", "furcations 1 / others 2", "root 3, others 1"]}),
            Space.of("query-edit-query", gen_edit, check_tree, bounds={"ST_max_nodes": ed_hi, "edits": "every single re-parenting that keeps the tree well-formed", "how": build.EDIT_HOWS}),
